@@ -73,7 +73,9 @@ impl<'a> Remote<'a> {
                 crate::yield_now()
             }
         }
-        if !notified && let Some(ref waker) = shared.waker {
+        // Notify after the push even if we already did while the queue was full: the
+        // consumer may have consumed that early notification before the push landed.
+        if let Some(ref waker) = shared.waker {
             waker.wake_by_ref();
         }
 
